@@ -34,7 +34,8 @@ Record sstate := mkSS {
 Definition ss0 : sstate := mkSS [] [] [] [] 0 [] [].
 
 (* expected result class of an operation *)
-Inductive sres := SOk | SErr (e : exn) | SAny | SJson (v : json) | SIds (l : list str) | SNum (n : N) | SBool (b : bool).
+Inductive sres := SOk | SErr (e : exn) | SAny | SJson (v : json) | SIds (l : list str) | SNum (n : N) | SBool (b : bool)
+| SList (l : list sres).
 
 Fixpoint plookup {A} (p : path) (l : list (path * A)) : option A :=
   match l with [] => None | (q, x) :: l' => if path_eqb p q then Some x else plookup p l' end.
@@ -253,6 +254,7 @@ Section Spec.
         | None => (mark_dk (ensure_job s h) h, SOk)
         end
     | OUpdateCache _ | OCheck _ | OTree | OQuiet | OSnap => (s, SAny)
+    | OPickle2 _ _ | OFresh _ _ _ => (s, SAny)          (* handled by [sstep_top] *)
     end.
 
   Definition op_handle (o : op) : option nat :=
@@ -274,6 +276,48 @@ Section Spec.
     end.
 
   (* ---------------------------------------------------------------- triggers of the known defects *)
+  (* several handles restored from ONE pickle: one restored Project, handles that shared a state point share the
+     restored one *)
+  Fixpoint srestore (s : sstate) (hs : list nat) (cm : list (nat * nat)) (acc : list nat) : sstate * list nat :=
+    match hs with
+    | [] => (s, acc)
+    | h :: rest =>
+        let x := hS s h in
+        let '(s1, cj, cm') := match amap_find (sh_cell x) cm with
+                              | Some cj => (s, cj, cm)
+                              | None => (add_cellS s (cellS s (sh_cell x)), length (ss_cells s), (sh_cell x, length (ss_cells s)) :: cm)
+                              end in
+        srestore (add_hS s1 (mkSH (sh_root x) cj (sh_dk x) (sh_doc x) (sh_byid x))) rest cm' (acc ++ [length (ss_hs s1)])
+    end.
+
+  Fixpoint sfresh (s : sstate) (nhs : list nat) (fs : list fop) (outs : list oval) : sstate * list sres :=
+    match fs, outs with
+    | f :: fs', o :: outs' =>
+        let '(s1, r) := sstep s (fop_op nhs f) o in
+        let '(s2, rs) := sfresh s1 nhs fs' outs' in (s2, r :: rs)
+    | _, _ => (s, [])
+    end.
+
+  Definition sstep_top (s : sstate) (o : op) (out : oval) : sstate * sres :=
+    match o with
+    | OPickle2 h1 h2 =>
+        match out with
+        | VStrs _ => (fst (srestore (add_sessS s (sh_root (hS s h1))) [h1; h2] [] []), SAny)
+        | _ => sstep s (OPickle h1) out      (* a failure is judged like the failure of pickling h1 *)
+        end
+    | OFresh h1 h2 fs =>
+        match out with
+        | VList outs =>
+            let '(s1, nhs) := srestore (add_sessS s (sh_root (hS s h1))) (h1 :: match h2 with Some h => [h] | None => [] end) [] [] in
+            let '(s2, rs) := sfresh s1 nhs fs outs in
+            (* the child process is gone: its handles and its Project with it *)
+            (mkSS (ss_projs s2) (firstn (length (ss_sess s)) (ss_sess s2)) (firstn (length (ss_hs s)) (ss_hs s2))
+                  (ss_cells s2) (ss_gen s2) (ss_planted s2) (ss_orph s2), SList rs)
+        | _ => sstep s (OPickle h1) out
+        end
+    | _ => sstep s o out
+    end.
+
   (* the handle's lazily cached fields are out of date w.r.t. the spec: its job is gone although the handle
      believes the directory exists, or it holds a document object of an earlier incarnation of the job *)
   Definition stale_handle (s : sstate) (h : nat) : bool :=
@@ -296,6 +340,16 @@ Section Spec.
         end
     | ODoc h | ODocSet h _ _ | ODocReset h _ | OClear h | OReset h | ORemove h =>
         if stale_handle s h then 3 else 0
+    (* tag 8: a handle unpickled in a freshly started process has no lock-registry entries: every state point change
+       through it, and every write through its already materialised document, raises KeyError *)
+    | OFresh _ _ fs =>
+        match out with
+        | VList outs =>
+            if existsb (fun fo => match fo with
+                                  | (FEdit _ _ _, VExn EKeyError) | (FDocSet _ _ _, VExn EKeyError) => true
+                                  | _ => false end) (combine fs outs) then 8 else 0
+        | _ => 0
+        end
     | _ => 0
     end.
 
@@ -310,6 +364,18 @@ Section Spec.
     | SNum n, VNum x => N.eqb n x
     | SBool b, VBool x => Bool.eqb b x
     | _, _ => false
+    end.
+
+  Definition res_ok_top (r : sres) (out : oval) : bool :=
+    match r, out with
+    | SList rs, VList outs =>
+        (fix go (rs : list sres) (outs : list oval) : bool :=
+           match rs, outs with
+           | [], [] => true
+           | x :: rs', y :: outs' => res_ok x y && go rs' outs'
+           | _, _ => false
+           end) rs outs
+    | _, _ => res_ok r out
     end.
 
   Definition spec_view (p : sproj) : list jview :=
@@ -357,11 +423,11 @@ Section Spec.
     match sts with
     | [] => (None, trg)
     | st :: rest =>
-        let '(s1, r) := sstep s (t_op st) (t_out st) in
+        let '(s1, r) := sstep_top s (t_op st) (t_out st) in
         let tg := trigger s (t_op st) r (t_out st) in
         let trg1 := if Nat.eqb tg 0 then trg else (idx, tg) :: trg in
         let cur := match t_snap st with VSnapSame => prev | x => x end in
-        let ok := res_ok r (t_out st) &&
+        let ok := res_ok_top r (t_out st) &&
                   match cur with VSnap t vs => snap_ok s1 t vs | _ => false end in
         if ok then walk s1 cur (S idx) trg1 rest else (Some idx, trg1)
     end.
